@@ -1336,7 +1336,9 @@ impl Machine {
                         "JmpTable instruction requires non-empty jump_tables"
                     );
                     let table = &fn_proto.jump_tables[table_idx as usize];
-                    let idx = (val - table.min) as usize;
+                    // Wrapping: a scrutinee cast from -inf/inf saturates to i64::MIN/MAX, and an
+                    // out-of-range difference must select the default arm, not overflow.
+                    let idx = val.wrapping_sub(table.min) as usize;
                     // Last element of offsets is the default for out-of-range values
                     let default_idx = table.offsets.len() - 1;
                     increment = table
